@@ -1,7 +1,7 @@
 (* C13 — executable instantiation used by the correspondence check (no proofs; depends on Model.v only). *)
 From Coq Require Import List ZArith NArith Bool Arith.
 Import ListNotations.
-From Verif.C13 Require Import Model.
+From Verif.C13 Require Export Model.
 
 (* ------------------------------------------------------------------------------------------- *)
 (* the small universe of the histories:
